@@ -271,7 +271,7 @@ class SymExec:
             return
         self.st[FACTS] = self.st.get(FACTS, frozenset()) | {(cond, truth)}
 
-    def facts(self, st=None):
+    def path_facts(self, st=None):
         st = self.st if st is None else st
         return st.get(FACTS, frozenset()) if st is not None else frozenset()
 
@@ -823,21 +823,28 @@ class SymExec:
         base = self.st
         outs = []
         vals = []
+        arm_vals = []
         if len(idxs) > 1:
             self.cond_depth += 1
         for j in idxs:
             a = arms[j]
             self.st = dict(base)
-            self.bind_pat(a["pat"], opaque("armval", [self._p(scrut), Poly.const(j)]))
+            if a["pat"]["k"] in ("PTuple", "PBind") and isinstance(scrut, Poly):
+                # irrefutable destructuring (e.g. the expansion of assert_eq!): bind the components themselves
+                self.bind_pat(a["pat"], scrut)
+            else:
+                self.bind_pat(a["pat"], opaque("armval", [self._p(scrut), Poly.const(j)]))
             if a.get("guard") is not None:
                 self.eval(a["guard"])
             v = self.eval(a["body"])
             if self.st is not None:
                 outs.append(self.st)
                 vals.append(v)
+                arm_vals.append((j, a["pat"], v))
         if len(idxs) > 1:
             self.cond_depth -= 1
         self.st = self.join_states(outs)
+        self.log("matchval", node=e, arms=arm_vals)
         if not vals:
             return Poly.atom("never")
         v = vals[0]
@@ -870,8 +877,16 @@ class SymExec:
 
     def e_Struct(self, e):
         fs = []
+        raw = {}
         for f in e["fields"]:
-            fs.append(self._p(self.eval(f["e"])))
+            v = self.eval(f["e"])
+            if isinstance(v, Ref) and v.block is None and isinstance(self.st.get(v.key), Buf):
+                v = self.st[v.key]
+            raw[f["name"]] = v
+            fs.append(self._p(v))
+        self.log("struct", node=e, fields=raw, facts=self.path_facts())
+        if False:
+            pass
         return opaque("struct:" + e.get("def", "?"), fs, tag=e.get("sp"))
 
     def e_ConstBlock(self, e):
@@ -1293,6 +1308,11 @@ class SymExec:
             if len(lv) > 1 and lv[1] is not None:
                 self.havoc_key(lv[1], "call", inputs=ins)
         self.log("call", callee=d, node=e, args=vals)
+        if e.get("ty") == "!":
+            # a diverging call (panic!, unreachable!, process::exit): this path ends here
+            self.log("diverge", node=e, callee=d)
+            self.st = None
+            return Poly.atom("never")
         return opaque("call:" + d, vals, tag=e.get("sp"))
 
     SCALAR_METHODS = {"abs", "sqrt", "powf", "max", "min", "signum", "ln", "exp", "clamp", "floor", "ceil",
@@ -1418,6 +1438,16 @@ class SymExec:
                 return Buf(fresh("vec").single_atom(), {}, n if isinstance(n, Poly) else None, None, base=v)
         if d.endswith("Vec::<T>::new") and not args:
             return Coll()
+        if d.endswith("box_assume_init_into_vec_unsafe") or d.endswith("slice::<impl [T]>::into_vec"):
+            import re as _re
+            m_ = _re.search(r"\[[^;\]]+; (\d+)\]", e.get("fty", ""))
+            if m_:
+                for a_ in args:
+                    self.eval(a_)
+                return Buf(fresh("veclit").single_atom(), {}, Poly.const(int(m_.group(1))), None)
+        if d.endswith("Vec::<T>::with_capacity") and len(args) == 1:
+            self.eval(args[0])
+            return Buf(fresh("vec").single_atom(), {}, Poly.const(0), None)
         if d in ("std::option::Option::Some",) and len(args) == 1:
             v = self.eval(args[0])
             return opaque("Some", [self._p(v)])
